@@ -108,23 +108,45 @@ def digest(objs):
     return hashlib.sha1("\n".join(items).encode()).hexdigest()
 
 
-def run_query(src, spec, members=None):
-    """members: the sources the attached filters go to (default: src itself)."""
+def make_qarg(spec):
+    """The query argument of one spec, built ONCE and handed to every route in turn (a caller may well reuse its
+    query object): a list of filters, a bare Filter, None, or -- spec["fset"] -- a FilterSet object."""
+    q = mk_filters(spec["q"])
+    if spec.get("fset"):
+        return FilterSet(q), q
+    if spec.get("bare") and len(q) == 1:
+        return q[0], q
+    if spec.get("none") and not q:
+        return None, q
+    return q, q
+
+
+def qarg_changed(qarg, q):
+    """Has a query() altered the caller's query object?"""
     try:
-        q, att, comp = mk_filters(spec["q"]), mk_filters(spec["att"]), mk_filters(spec["comp"])
+        if isinstance(qarg, FilterSet):
+            return list(qarg) != list(q)
+        if isinstance(qarg, list):
+            return qarg != list(q) or len(qarg) != len(q)
+    except Exception:  # noqa: BLE001
+        return True
+    return False
+
+
+def run_query(src, spec, qarg, members=None):
+    """members: the sources the attached filters go to (default: src itself); the second member gets spec["att2"]
+    when that is given."""
+    try:
+        att, comp = mk_filters(spec["att"]), mk_filters(spec["comp"])
+        att2 = mk_filters(spec["att2"]) if "att2" in spec else att
     except Exception as e:  # noqa: BLE001
         return "CONSTRUCT " + type(e).__name__
     targets = members if members is not None else [src]
-    for t in targets:
+    for i, t in enumerate(targets):
         t.filters = FilterSet()
-        if att:
-            t.filters.add(att)
-    if spec.get("bare") and len(q) == 1:
-        qarg = q[0]
-    elif spec.get("none") and not q:
-        qarg = None
-    else:
-        qarg = q
+        a = att2 if (members is not None and i == 1) else att
+        if a:
+            t.filters.add(a)
     if members is not None:
         src.filters = FilterSet()
         if comp:
@@ -200,13 +222,13 @@ def instant_us(x):
         return None
 
 
-def listing(root, dicts, offset):
+def listing(root, dicts, offset, index_of=None):
     """os.listdir order of a FileSystemSink tree -- the order FileSystemSource meets directories and files in:
     [[type dir, [[entry name, None | [[version file name, index of that object in the population], ...]], ...]], ...]"""
     by_key = {}
     for i, d in enumerate(dicts):
         if "modified" in d:
-            by_key[(d.get("id"), instant_us(d["modified"]))] = i + offset
+            by_key[(d.get("id"), instant_us(d["modified"]))] = (index_of[i] if index_of is not None else i + offset)
     out = []
     for tdir in os.listdir(root):
         tp = os.path.join(root, tdir)
@@ -230,6 +252,44 @@ def listing(root, dicts, offset):
                 ents.append([e, None])
         out.append([tdir, ents])
     return out
+
+
+def run_grow(case, tmp):
+    """One FileSystemStore and one MemoryStore that live through a history: objects are added in steps, and after
+    every step the SAME store objects answer the same queries (a store must not remember anything about a
+    directory that an add can make untrue)."""
+    g = case.get("grow")
+    if not g:
+        return None
+    order = g["order"]
+    dicts = [dec(case["pop"][i]) for i in order]
+    d3 = os.path.join(tmp, "grow")
+    os.mkdir(d3)
+    fstore = stix2.FileSystemStore(d3, allow_custom=True)
+    mstore = stix2.MemoryStore(allow_custom=True)
+    steps, prev = [], 0
+    for n in g["steps"]:
+        refused = []
+        for j in range(prev, n):
+            for name, st in (("fs", fstore), ("mem", mstore)):
+                try:
+                    st.add(dict(dicts[j]))
+                except Exception as e:  # noqa: BLE001
+                    refused.append([name, order[j], type(e).__name__])
+        prev = n
+        answers = []
+        for spec in g["queries"]:
+            try:
+                qarg, q = make_qarg(spec)
+            except Exception as e:  # noqa: BLE001
+                line = "CONSTRUCT " + type(e).__name__
+                answers.append({"mem": line, "fs": line, "qarg_changed": False})
+                continue
+            a = {"mem": render(lambda: mstore.query(qarg)), "fs": render(lambda: fstore.query(qarg))}
+            a["qarg_changed"] = qarg_changed(qarg, q)
+            answers.append(a)
+        steps.append({"n": n, "refused": refused, "listing": listing(d3, dicts[:n], 0, index_of=order[:n]), "queries": answers})
+    return steps
 
 
 def handle(case):
@@ -271,13 +331,18 @@ def handle(case):
         res["echo"] = echo
         out = []
         for spec in case["queries"]:
-            out.append({
-                "mo": run_query(mo, spec),
-                "md": run_query(md, spec),
-                "fs": run_query(fs, spec),
-                "c2": run_query(c2, spec, members=[ma, fb]),
-            })
+            try:
+                qarg, q = make_qarg(spec)
+            except Exception as e:  # noqa: BLE001
+                line = "CONSTRUCT " + type(e).__name__
+                out.append({"mo": line, "md": line, "fs": line, "c2": line, "qarg_changed": False})
+                continue
+            r = {"mo": run_query(mo, spec, qarg), "md": run_query(md, spec, qarg), "fs": run_query(fs, spec, qarg),
+                 "c2": run_query(c2, spec, qarg, members=[ma, fb])}
+            r["qarg_changed"] = qarg_changed(qarg, q)
+            out.append(r)
         res["queries"] = out
+        res["grow"] = run_grow(case, tmp)
         res["gets"] = [{"mo": run_get(mo, g), "fs": run_get(fs, g),
                         "cmo": run_get(mo, g, composite=True), "cfs": run_get(fs, g, composite=True),
                         "c2": run_get(c2, g, members=[ma, fb])} for g in case.get("gets", [])]
